@@ -138,8 +138,8 @@ def constructor(rep, idx, ctor):
     ok = False
     for st in ast.walk(init):
         if isinstance(st, ast.If) and any(isinstance(s, ast.Raise) for s in st.body):
-            t = ir.norm(ir.from_ast(st.test, {}))
-            if t[0] == 'cmp' and t[1] == 'not in' and t[2] == ir.parse("csr_bus.data_width") and t[3][0] in ('tuple', 'list', 'set'):
+            t, pol = ir.split_neg(ir.norm(ir.from_ast(st.test, {})))
+            if not pol and t[0] == 'cmp' and t[1] == 'in' and t[2] == ir.parse("csr_bus.data_width") and t[3][0] in ('tuple', 'list', 'set'):
                 vals = sorted(x[1] for x in t[3][1] if x[0] == 'const')
                 ok = vals == [8, 16, 32, 64]
     rep.check(ok, "C10.5", site, "CSR data width restricted to 8/16/32/64", "no `if csr_bus.data_width not in (8, 16, 32, 64): raise` found")
